@@ -114,7 +114,11 @@ impl RevocationBitmap {
     // This fix checks if the encoded string it receives as input has undergone such process
     // and undo the inner Base64 encoding before processing the input further.
     let mut data = Cow::Borrowed(data.as_ref());
-    if !data.starts_with("eJy") {
+    // "eJ" is the Base64Url encoding of the two-byte zlib header for default compression (0x78 0x9c). The third
+    // character depends on the type of the first deflate block, so it must not be part of the check: "eJy" only
+    // matches streams starting with a fixed-Huffman block, while larger bitmaps start with "eJw", "eJx" or "eJz".
+    // The legacy outer encoding of such a header starts with "ZUp" and is not affected.
+    if !data.starts_with("eJ") {
       // Base64 encoded zlib default compression header
       let decoded = BaseEncoding::decode(&data, Base::Base64)
         .map_err(|e| RevocationError::Base64DecodingError(data.into_owned(), e))?;
